@@ -10,8 +10,8 @@ import vlib
 import partgen as pg
 
 PROP = 'C03'
-LEAN_TARGETS = ['MorphKgc.Props.C03']
-GEN_KEYS = ['group_set']
+LEAN_TARGETS = ['MorphKgc.Props.C03', 'MorphKgc.Props.CoreFuncs']
+GEN_KEYS = ['group_set', 'core']
 M = 'MorphKgc.Props.C03'
 THEOREMS = [{'name': f'Props.C03.{n}', 'module': M} for n in [
     'C03_partial_separation', 'C03_maximal_separation', 'C03_disjoint_partial', 'C03_disjoint_maximal', 'C03_disjoint',
@@ -19,6 +19,8 @@ THEOREMS = [{'name': f'Props.C03.{n}', 'module': M} for n in [
     'C03_F2_reference_iri_breaks_tokens', 'C03_F3_literal_type_on_iri', 'C03_group_accumulator', 'C03_group_no_duplicates',
     'C03_group_list_counterwitness']] + [
     {'name': 'Py.scan_separates', 'module': 'MorphKgc.Lemmas.Scan'}, {'name': 'Py.prefix_interval', 'module': 'MorphKgc.Lemmas.Scan'}]
+# the model functions these theorems are about are EQUAL to the functions translated from /repo's source (Gen/CoreFuncs.lean)
+THEOREMS += [{'name': f'Props.CoreFuncs.{n}', 'module': 'MorphKgc.Props.CoreFuncs'} for n in ['inv_eq', 'refs_eq']]
 RULE = ('generated documents (term maps with equal / nested / interleaved constant prefixes, several graph maps, typed and tagged literals, '
         'blank nodes) x tables whose cells are drawn from a Unicode alphabet AND from values assembled out of the mapping\'s own constants '
         '(data the grouping never saw); each mapping group is materialized separately in-process (the function the CLI workers run) and all '
